@@ -31,7 +31,7 @@ CASE_TIMEOUT_S = 900
 STUBS = []
 PROBES = ['eviction', 'absent_key_lookup', 'absent_then_evict', 'idx_path', 'raw_path', 'rewrite',
           'cache_size_1', 'minus_strand_tx', 'sec_tx', 'demo_multi_isoform', 'invalid_protein_as_noncoding',
-          'unversioned_lookup', 'non_ascii_gtf', 'corpus_real_reference']
+          'unversioned_lookup', 'non_ascii_gtf', 'corpus_real_reference', 'ensembl_dialect']
 RULE = ('case = generated annotation (6-14 genes, both strands, Sec, NF tags) or the multi-isoform demo GTF; '
         'history = Hypothesis rule sequence (<=40 steps): lookups of present/absent keys in both pointer '
         'dicts, contains/len/iter, coordinate and sequence API calls, unversioned gene lookup, write->reparse, '
@@ -424,6 +424,22 @@ class Sim:
                                 {'tx': tx, 'orf': str(seq.orf), 'expected_start': pos})
             if (int(seq.orf.end) - int(seq.orf.start)) % 3 != 0 or int(seq.orf.end) > n:
                 raise Violation('coord-orf', f'coord-orf:end:strand{strand}', {'tx': tx, 'orf': str(seq.orf)})
+            # the ORF ends where the 3'UTR begins (first 3'UTR base in transcript orientation, whatever the order
+            # and number of the 3'UTR records), else at the transcript end; rounded down to the reading frame
+            if m.three_utr:
+                idx3 = []
+                for u in m.three_utr:
+                    first = int(u.location.start) if strand == 1 else int(u.location.end) - 1
+                    if first in fs:
+                        idx3.append(flat.index(first))
+                lim = min(idx3) if idx3 else n
+            else:
+                lim = n
+            exp_end = lim - (lim - pos) % 3
+            if int(seq.orf.end) != exp_end:
+                raise Violation('coord-orf', f'coord-orf:end-vs-3utr:strand{strand}',
+                                {'tx': tx, 'orf': str(seq.orf), 'expected_end': exp_end,
+                                 'three_utr': [(int(u.location.start), int(u.location.end)) for u in m.three_utr]})
         if m.selenocysteine:
             self.stats['sec'] = 1
             exp = []
@@ -583,6 +599,54 @@ def add_non_ascii(rng, gtf_text):
     return '\n'.join(out) + '\n'
 
 
+def ensembl_dialect(rng, gtf_text):
+    """The same annotation in the dialect Ensembl writes: typed ``five_prime_utr`` / ``three_prime_utr`` records
+    instead of ``UTR``, a UTR possibly in several pieces, and the records of a minus-strand transcript listed in
+    transcript order (descending coordinates).  Only the representation changes."""
+    out, block = [], []
+
+    def flush():
+        if not block:
+            return
+        cds = [(int(f[3]), int(f[4])) for f in block if f[2] == 'CDS']
+        strand = block[0][6]
+        body = []
+        for f in block:
+            if f[2] == 'UTR' and cds:
+                lo, hi = min(c[0] for c in cds), max(c[1] for c in cds)
+                a, b = int(f[3]), int(f[4])
+                three = (a > hi) if strand == '+' else (b < lo)
+                typ = 'three_prime_utr' if three else 'five_prime_utr'
+                pieces = [(a, b)]
+                if b - a >= 3 and rng.random() < 0.6:
+                    cut = rng.randint(a, b - 1)
+                    pieces = [(a, cut), (cut + 1, b)]
+                for x, y in pieces:
+                    body.append(f[:2] + [typ, str(x), str(y)] + f[5:])
+            else:
+                body.append(f)
+        head = [f for f in body if f[2] == 'transcript']
+        rest = [f for f in body if f[2] != 'transcript']
+        if strand == '-' and rng.random() < 0.6:
+            rest.sort(key=lambda f: -int(f[3]))
+        out.extend('\t'.join(f) for f in head + rest)
+        block.clear()
+    for line in gtf_text.splitlines():
+        if not line or line.startswith('#'):
+            flush()
+            out.append(line)
+            continue
+        f = line.split('\t')
+        if f[2] in ('gene', 'transcript'):
+            flush()
+        if f[2] == 'gene':
+            out.append(line)
+        else:
+            block.append(f)
+    flush()
+    return '\n'.join(out) + '\n'
+
+
 def case_texts(seed, idx):
     rng = R.case_rng(seed, ENGINE, idx)
     u = rng.random()
@@ -612,6 +676,8 @@ def case_texts(seed, idx):
             texts = dict(texts, proteome_fa=''.join('>' + r for r in recs))
         if rng.random() < 0.4:
             texts = dict(texts, gtf=add_non_ascii(rng, texts['gtf']), non_ascii=True)
+    if rng.random() < 0.35:
+        texts = dict(texts, gtf=ensembl_dialect(rng, texts['gtf']), ensembl_dialect=True)
     return texts, demo, rng
 
 
@@ -667,6 +733,8 @@ def run_case(seed, task, tier):
                 probes['corpus_real_reference'] = probes.get('corpus_real_reference', 0) + 1
         if texts.get('non_ascii'):
             probes['non_ascii_gtf'] = probes.get('non_ascii_gtf', 0) + 1
+        if texts.get('ensembl_dialect'):
+            probes['ensembl_dialect'] = probes.get('ensembl_dialect', 0) + 1
     if stats_box:
         out['sample'] = {'case': idx, 'demo': demo, 'n_histories': len(stats_box),
                          'last_history': trace_box[0][:40] if trace_box[0] else None}
